@@ -293,7 +293,7 @@ func genC17(g *Gen) {
 // C18: cells and patterns are valid UTF-8; code points whose upper case has another byte length
 // (U+0131 -> I, U+017F -> S, U+0250 -> U+2C6F), C1 controls (U+0080), lengths around the matcher's
 // 10-byte buffer and its doublings; the same values in a string and in an enum column.
-var likeAtoms = []string{"a", "B", "z", "é", "É", "ı", "ſ", "ɐ", "Ɐ", "\u0080", "ß", "ǆ", "ǅ", "Σ", "ς", "%", "_", "0", " ", "δ"}
+var likeAtoms = []string{"\u212a", "k", "K", "\u2126", "ω", "Ω", "\u212b", "å", "ẞ", "i", "I", "a", "B", "z", "é", "É", "ı", "ſ", "ɐ", "Ɐ", "\u0080", "ß", "ǆ", "ǅ", "Σ", "ς", "%", "_", "0", " ", "δ"}
 
 func (g *Gen) likeString(maxAtoms int) string {
 	s := ""
@@ -307,7 +307,10 @@ func (g *Gen) likeString(maxAtoms int) string {
 // string, a literal, a prefix ... x like / ilike, on a string, a derived enum and a declared enum column
 func (g *Gen) likeSmall() {
 	cells := []*BS{bsp(""), nil, bsp("x"), bsp("X")}
-	pats := []string{"%", "%%", "", ".*", "x", "x%", "%x", "X", "[xy]?", "nope", "%nope%"}
+	if g.rng.Intn(2) == 0 { // code points whose case folding and upper-casing differ
+		cells = []*BS{bsp("\u212a"), bsp("k"), bsp("ß"), bsp("ı")}
+	}
+	pats := []string{"%", "%%", "", ".*", "x", "x%", "%x", "X", "[xy]?", "nope", "%nope%", "k", "K", "\u212a", "ss", "ẞ", "i", "I"}
 	for n := 1; n <= 4; n++ {
 		total := 1
 		for i := 0; i < n; i++ {
@@ -323,9 +326,15 @@ func (g *Gen) likeSmall() {
 				vals[i] = cells[c%len(cells)]
 				c /= len(cells)
 			}
+			declS := []string{"unused"}
+			for _, c := range cells {
+				if c != nil {
+					declS = append(declS, c.String())
+				}
+			}
 			g.begin("like small")
 			f := g.do(Step{Op: "New", Recv: -1, HasOrder: true, ColOrder: bsList([]string{"S", "X", "D"}), HasEnums: true,
-				Enums: []EnumDecl{{Name: toBS("X"), Vals: nil}, {Name: toBS("D"), Vals: bsList([]string{"X", "unused", "", "x"})}},
+				Enums: []EnumDecl{{Name: toBS("X"), Vals: nil}, {Name: toBS("D"), Vals: bsList(declS)}},
 				Data:  []ColData{{Name: toBS("S"), Kind: "string", Strs: vals}, {Name: toBS("X"), Kind: "string", Strs: vals}, {Name: toBS("D"), Kind: "string", Strs: vals}}})
 			for k := 0; k < 4; k++ {
 				pat := pats[g.rng.Intn(len(pats))]
